@@ -25,6 +25,16 @@ type FuncUnit struct {
 	C    *Contract
 	Spec *PkgSpec
 	lemma bool
+	unstatable []unstatableClause
+	stubSig  *types.Signature // contract on an interface method: signature of the generated stub (receiver first)
+	ifaceKey string
+}
+
+// unstatableClause: a clause over locals that names a variable the function
+// does not have (in scope at function level).
+type unstatableClause struct {
+	label, text, name, file string
+	line                    int
 }
 
 func (u *FuncUnit) Name() string {
@@ -34,6 +44,9 @@ func (u *FuncUnit) Name() string {
 func (u *FuncUnit) Key() string {
 	if u.lemma {
 		return u.C.Key
+	}
+	if u.ifaceKey != "" {
+		return u.ifaceKey
 	}
 	sig := u.Fn.Type().(*types.Signature)
 	if r := sig.Recv(); r != nil {
@@ -59,6 +72,7 @@ type Obligation struct {
 	upto    int
 	goal    Term
 	Trivial bool `json:"trivial,omitempty"`
+	preset  bool
 	Model   string `json:"-"`
 	Replay  *ReplayResult `json:"-"`
 	// thorough tier: answer of a second, different solver on the same query
@@ -223,7 +237,9 @@ func (fv *FV) specFact(t Term) {
 
 func (fv *FV) specTerm(e *Env, cl *Clause, sc *specCtx) Term {
 	if cl.Expr == nil {
-		fv.specErr(fmt.Sprintf("%s:%d: clause did not type-check: %s", cl.File, cl.Line, cl.Text))
+		if !cl.unstatable {
+			fv.specErr(fmt.Sprintf("%s:%d: clause did not type-check: %s", cl.File, cl.Line, cl.Text))
+		}
 		return tTrue
 	}
 	savedInfo, savedSpec := fv.info, fv.spec
@@ -291,6 +307,12 @@ func (eng *Engine) verifyFunc(u *FuncUnit) (rep *FuncReport) {
 				fv.specErr(fmt.Sprintf("precall clause %q matches no call in %s (contract out of date?)", pc.Re.String(), u.Name()))
 			}
 		}
+	}
+	for _, uc := range u.unstatable {
+		fv.obls = append(fv.obls, &Obligation{Name: u.Name() + "#" + uc.label + "#scope", Kind: "scope", Func: u.Name(), Pos: fv.posStr(u.Decl.Pos()),
+			Desc:   fmt.Sprintf("contract clause %q (%s:%d) can be stated: it names the local %q, which %s does not define at function level", uc.text, filepath.Base(filepath.Dir(uc.file))+"/"+filepath.Base(uc.file), uc.line, uc.name, u.Key()),
+			Expect: "unsat", Status: "unstatable", Solver: "type-check", preset: true,
+			Output: fmt.Sprintf("undefined: %s", uc.name)})
 	}
 	rep.GenSecs = time.Since(start).Seconds()
 	t1 := time.Now()
@@ -681,7 +703,7 @@ func (eng *Engine) discharge(fv *FV) {
 	var wg sync.WaitGroup
 	sem := make(chan struct{}, eng.parallel)
 	for i, o := range fv.obls {
-		if o.Trivial {
+		if o.Trivial || o.preset {
 			continue
 		}
 		if eng.oblFilter != "" && !strings.Contains(o.Name, eng.oblFilter) {
